@@ -87,4 +87,31 @@ theorem c24_monitor (cfg : Cfg) (idMin idMax : UInt16) (evs : List (Nat × Event
 example : ConnOk (ConnFields.mk [0x63] true 10 false [] false [] true 1 false [0x74] [0x6d]) := by
   constructor <;> decide
 
+/-- **C24 (tie of the all-runs theorems).** The inventory of places where the gateway's code writes to the broker
+    link — every call of `mqttSend`, `pingBroker`, `ProceedMQTT` in the package, regenerated from the source on every
+    run — is the reviewed one the model was written against: `handleClientPublish` (model `handleClientPublish`),
+    the PUBREL / PINGREQ / DISCONNECT cases of `handleMqttSn` (`handleSn`, `handlePingreq`, `handlePlainDisconnect`),
+    `handleSubscribe` / `handleUnsubscribe` (`forwardSubscribe` / `forwardUnsubscribe`), the connect transaction's
+    `authenticated` / `WillMsg` (`connAuthenticated` / `connWillMsg`), `ProceedMQTT` with its three callers
+    (`proceedMQ` for PUBACK / PUBREC / PUBCOMP), `resend` (`retryExpire`), and `pingBroker` with its two callers
+    (`keepBrokerAlive`, `firePing`).  A change that adds, removes or moves such a call breaks this obligation. -/
+theorem c24_emission_sites :
+    Gen.mqttSendSites_gateway =
+     ["broker_publish_qos1_transaction.go:Puback:ProceedMQTT",
+      "broker_publish_qos2_transaction.go:Pubcomp:ProceedMQTT",
+      "broker_publish_qos2_transaction.go:Pubrec:ProceedMQTT",
+      "broker_publish_transaction.go:ProceedMQTT:mqttSend",
+      "broker_publish_transaction.go:resend:mqttSend",
+      "connect_transaction.go:WillMsg:mqttSend",
+      "connect_transaction.go:authenticated:mqttSend",
+      "handler1.go:handleClientPublish:mqttSend",
+      "handler1.go:handleMqttSn:mqttSend",
+      "handler1.go:handleMqttSn:mqttSend",
+      "handler1.go:handleMqttSn:mqttSend",
+      "handler1.go:handleSubscribe:mqttSend",
+      "handler1.go:handleUnsubscribe:mqttSend",
+      "handler1.go:keepBrokerAlive:pingBroker",
+      "handler1.go:pingBroker:mqttSend",
+      "handler1.go:startSleepPinger:pingBroker"] := rfl
+
 end Bisquitt.Gw
